@@ -25,54 +25,80 @@ func init() {
 		Doc: "before hashing, exactly these fields of the copy are blanked: Alias and Profile always; Validity.From when the start is run-relative or inherited; Validity.Until in that case unless the end was given as an explicit date; nothing else; and the bytes hashed are json.Marshal of that copy with no re-encoding in between"})
 }
 
+// configImporter: the module function with a CertificateContent parameter that the directory walk (its callback, or a
+// helper of it) calls for every configuration file.
+func (c *Ctx) configImporter() *ssa.Function {
+	var importer *ssa.Function
+	for cb := range c.walkCallbacks() {
+		var find func(from *ssa.Function, d int)
+		find = func(from *ssa.Function, d int) {
+			for _, ci := range callsIn(from) {
+				f := ci.Common().StaticCallee()
+				if f == nil || !c.InModule(f) || f.Blocks == nil {
+					continue
+				}
+				for _, p := range f.Params {
+					if strings.HasSuffix(typeShort(c, p.Type()), "CertificateContent") && errResultIndex(f.Signature) >= 0 {
+						importer = f
+					}
+				}
+				if importer == nil && d < 2 && f.Pkg == cb.Pkg {
+					find(f, d+1)
+				}
+			}
+		}
+		find(cb, 0)
+	}
+	return importer
+}
+
 func ruleProvMeta(c *Ctx, r *Rep) {
 	pv := c.newProv()
-	var fn *ssa.Function
-	for _, f := range c.Funcs {
-		for _, fs := range storesIntoType(c, f, "db.Metadata") {
-			if fs.field == "LastConfigHash" {
-				fn = f
-			}
-		}
-		for _, fs := range storesIntoType(c, f, "filesystem.fsMetadata") {
-			if strings.HasSuffix(fs.field, "LastConfigHash") {
-				fn = f
-			}
-		}
-	}
-	if fn == nil {
-		r.Undecided("anchor:metadata-import", "", "no function stores Metadata.LastConfigHash")
+	root := c.configImporter()
+	if root == nil {
+		r.Undecided("anchor:metadata-import", "", "no function imports a configuration on behalf of the directory walk")
 		return
 	}
-	fk := c.FuncKey(fn)
-	// the content the artifact is decoded from: the argument of the call that yields a BuildArtifact
-	var decodeCall ssa.CallInstruction
-	for _, ci := range callsIn(fn) {
-		f := ci.Common().StaticCallee()
-		if f == nil || !c.InModule(f) {
-			continue
-		}
-		res := f.Signature.Results()
-		if res.Len() == 1 && strings.HasSuffix(typeShort(c, res.At(0).Type()), "db.BuildArtifact") {
-			decodeCall = ci
+	fk := c.FuncKey(root)
+	cfgPath := ""
+	for _, p := range root.Params {
+		if isString(p.Type()) {
+			cfgPath = "P(" + fk + "." + p.Name() + ")"
 		}
 	}
-	if decodeCall == nil {
-		r.Undecided("anchor:artifact-decoder|"+fk, c.FnPos(fn), "no call that decodes a BuildArtifact from the file's content")
-		return
-	}
+	samePkg := func(g *ssa.Function) bool { return g.Pkg != root.Pkg }
+	// pass 1: the content the artifact is decoded from (argument of the call that yields a BuildArtifact), wherever in the
+	// importer or its helpers that call sits
 	var contents []string
-	for _, o := range pv.Origins(decodeCall.Common().Args[len(decodeCall.Common().Args)-1]) {
-		if o != "K(nil)" {
-			contents = append(contents, o)
+	var decodePos token.Pos
+	pv.inFrames(root, 2, samePkg, func(fr frame) {
+		for _, ci := range callsIn(fr.fn) {
+			f := ci.Common().StaticCallee()
+			if f == nil || !c.InModule(f) {
+				continue
+			}
+			res := f.Signature.Results()
+			if res.Len() == 1 && strings.HasSuffix(typeShort(c, res.At(0).Type()), "db.BuildArtifact") && len(ci.Common().Args) > 0 {
+				decodePos = ci.Pos()
+				for _, o := range pv.here(ci.Common().Args[len(ci.Common().Args)-1]) {
+					if o != "K(nil)" {
+						contents = append(contents, o)
+					}
+				}
+			}
 		}
+	})
+	contents = uniq(contents)
+	if !decodePos.IsValid() {
+		r.Undecided("anchor:artifact-decoder|"+fk, c.FnPos(root), "no call that decodes a BuildArtifact from the file's content")
+		return
 	}
 	content, reader, openName := "", "", ""
 	if len(contents) == 1 && strings.HasPrefix(contents[0], "io.ReadAll(") && strings.HasSuffix(contents[0], ")#0") {
 		content = contents[0]
 		reader = strings.TrimSuffix(strings.TrimPrefix(content, "io.ReadAll("), ")#0")
 	}
-	r.Check(content != "", "artifact-from-file|"+fk, c.Pos(decodeCall.Pos()), "the artifact is decoded from what io.ReadAll returned for one file", strings.Join(contents, " , "))
+	r.Check(content != "", "artifact-from-file|"+fk, c.Pos(decodePos), "the artifact is decoded from what io.ReadAll returned for one file", strings.Join(contents, " , "))
 	// all of the file: the reader handed to ReadAll is the opened file itself, not a limited or wrapped view of it
 	whole := strings.HasPrefix(reader, "I:") && strings.Contains(reader, ".Open(") && strings.HasSuffix(reader, ")#0") && len(splitTop(reader, ',')) == 1
 	if whole {
@@ -84,13 +110,13 @@ func ruleProvMeta(c *Ctx, r *Rep) {
 			whole = false
 		}
 	}
-	r.Check(whole, "artifact-read-whole|"+fk, c.Pos(decodeCall.Pos()), "io.ReadAll of the opened artifact file itself (keys and requests of any size are kept)", reader)
+	r.Check(whole, "artifact-read-whole|"+fk, c.Pos(decodePos), "io.ReadAll of the opened artifact file itself (keys and requests of any size are kept)", reader)
 	okName := openName != ""
 	if okName {
 		okName = strings.Contains(openName, ".configFileName[:]") && strings.HasSuffix(openName, "|K(\".pem\"))")
 	}
-	r.Check(okName, "artifact-file-read|"+fk, c.FnPos(fn), "the artifact read is <config path without extension>.pem of this entity", openName)
-	// leaves of a branch condition
+	r.Check(okName, "artifact-file-read|"+fk, c.FnPos(root), "the artifact read is <config path without extension>.pem of this entity", openName)
+	// leaves of a branch condition, in the current frame
 	var leaves func(v ssa.Value, d int) []string
 	leaves = func(v ssa.Value, d int) []string {
 		if d > 6 {
@@ -110,52 +136,59 @@ func ruleProvMeta(c *Ctx, r *Rep) {
 			}
 			return out
 		}
-		return pv.Origins(v)
+		return pv.here(v)
 	}
+	// pass 2: the metadata fields, wherever they are stored
 	seenStore := map[*ssa.Store]bool{}
-	for _, owner := range []string{"db.Metadata", "filesystem.fsMetadata"} {
-		for _, fs := range storesIntoType(c, fn, owner) {
-			if seenStore[fs.st] {
-				continue
-			}
-			seenStore[fs.st] = true
-			f := fs.field[strings.LastIndex(fs.field, ".")+1:]
-			var o []string
-			for _, x := range pv.Origins(fs.val()) {
-				if x != "K(nil)" || f != "LastConfigHash" { // a nil stored hash means "none stored"
-					o = append(o, x)
+	pv.inFrames(root, 2, samePkg, func(fr frame) {
+		for _, owner := range []string{"db.Metadata", "filesystem.fsMetadata"} {
+			for _, fs := range storesIntoType(c, fr.fn, owner) {
+				if seenStore[fs.st] {
+					continue
 				}
-			}
-			joined := strings.Join(o, " , ")
-			switch f {
-			case "LastConfigUpdate":
-				ok := len(o) == 1 && strings.Contains(o[0], "ModTime(I:io/fs.StatFS.Stat(") && strings.Contains(o[0], "|P("+fk+".configPath))#0)")
-				r.Check(ok, "config-mtime|"+fk, c.Pos(fs.st.Pos()), "ModTime of Stat(configuration path)", joined)
-			case "LastBuild":
-				const pre = "I:os.FileInfo.ModTime(I:filesystem.Filesystem.Stat("
-				ok := len(o) == 1 && strings.HasPrefix(o[0], pre) && strings.HasSuffix(o[0], ")#0)")
-				if ok {
-					// same name as the file that is read
-					parts := splitTop(o[0][len(pre):len(o[0])-len(")#0)")], '|')
-					ok = len(parts) == 2 && parts[1] == openName
-				}
-				r.Check(ok, "artifact-mtime|"+fk, c.Pos(fs.st.Pos()), "ModTime of Filesystem.Stat(<the artifact file that is read>)", joined)
-				// recorded whenever the file could be read: not made to depend on what the file contains
-				dep := ""
-				for _, g := range guardsOf(fs.st.Block()) {
-					for _, l := range leaves(g.Cond, 0) {
-						if content != "" && strings.Contains(l, content) {
-							dep = c.Pos(g.If.Pos()) + ": " + l
-						}
+				seenStore[fs.st] = true
+				f := fs.field[strings.LastIndex(fs.field, ".")+1:]
+				var o []string
+				for _, x := range pv.here(fs.val()) {
+					if x != "K(nil)" || f != "LastConfigHash" { // a nil stored hash means "none stored"
+						o = append(o, x)
 					}
 				}
-				r.Check(dep == "", "artifact-mtime-whenever-readable|"+fk, c.Pos(fs.st.Pos()), "the build time is recorded for every readable artifact file, whatever it contains (an artifact without a certificate still has a build time to compare the issuer's with)", dep)
-			case "LastConfigHash":
-				ok := len(o) == 1 && strings.HasPrefix(o[0], "(*encoding/base64.Encoding).DecodeString(G(encoding/base64.StdEncoding)|") && content != "" && strings.Contains(o[0], strings.TrimSuffix(content, "#0"))
-				r.Check(ok, "stored-hash|"+fk, c.Pos(fs.st.Pos()), "StdEncoding.DecodeString of a part of the artifact file's content", joined)
+				joined := strings.Join(o, " , ")
+				switch f {
+				case "LastConfigUpdate":
+					ok := len(o) == 1 && strings.Contains(o[0], "ModTime(I:io/fs.StatFS.Stat(") && cfgPath != "" && strings.Contains(o[0], "|"+cfgPath+")#0)")
+					r.Check(ok, "config-mtime|"+fk, c.Pos(fs.st.Pos()), "ModTime of Stat(configuration path)", joined)
+				case "LastBuild":
+					const pre = "I:os.FileInfo.ModTime(I:filesystem.Filesystem.Stat("
+					ok := len(o) == 1 && strings.HasPrefix(o[0], pre) && strings.HasSuffix(o[0], ")#0)")
+					if ok {
+						// same name as the file that is read
+						parts := splitTop(o[0][len(pre):len(o[0])-len(")#0)")], '|')
+						ok = len(parts) == 2 && parts[1] == openName
+					}
+					r.Check(ok, "artifact-mtime|"+fk, c.Pos(fs.st.Pos()), "ModTime of Filesystem.Stat(<the artifact file that is read>)", joined)
+					// recorded whenever the file could be read: not made to depend on what the file contains
+					dep := ""
+					gs := guardsOf(fs.st.Block())
+					if fr.site != nil {
+						gs = append(gs, guardsOf(fr.site.Block())...)
+					}
+					for _, g := range gs {
+						for _, l := range leaves(g.Cond, 0) {
+							if content != "" && strings.Contains(l, content) {
+								dep = c.Pos(g.If.Pos()) + ": " + l
+							}
+						}
+					}
+					r.Check(dep == "", "artifact-mtime-whenever-readable|"+fk, c.Pos(fs.st.Pos()), "the build time is recorded for every readable artifact file, whatever it contains (an artifact without a certificate still has a build time to compare the issuer's with)", dep)
+				case "LastConfigHash":
+					ok := len(o) == 1 && strings.HasPrefix(o[0], "(*encoding/base64.Encoding).DecodeString(G(encoding/base64.StdEncoding)|") && content != "" && strings.Contains(o[0], strings.TrimSuffix(content, "#0"))
+					r.Check(ok, "stored-hash|"+fk, c.Pos(fs.st.Pos()), "StdEncoding.DecodeString of a part of the artifact file's content", joined)
+				}
 			}
 		}
-	}
+	})
 }
 
 func ruleProvAlias(c *Ctx, r *Rep) {
@@ -172,6 +205,27 @@ func ruleProvAlias(c *Ctx, r *Rep) {
 			n++
 			fk := c.FuncKey(fn)
 			sl, ok := fs.val().(*ssa.Slice)
+			popBinds := false
+			if !ok {
+				// the base name cut out by a one-expression helper of the path
+				if call, isCall := fs.val().(*ssa.Call); isCall {
+					if g := call.Call.StaticCallee(); g != nil && c.InModule(g) && len(g.Blocks) == 1 {
+						if rets := returnsOf(g); len(rets) == 1 && len(retResults(rets[0])) == 1 {
+							if hs, isSl := retResults(rets[0])[0].(*ssa.Slice); isSl {
+								bind := map[*ssa.Parameter][]string{}
+								for i, prm := range g.Params {
+									if i < len(call.Call.Args) {
+										bind[prm] = pv.Origins(call.Call.Args[i])
+									}
+								}
+								pv.binds = append(pv.binds, bind)
+								popBinds = true
+								sl, ok = hs, true
+							}
+						}
+					}
+				}
+			}
 			shape := ""
 			if !ok {
 				shape = "not a sub-string of the path: " + strings.Join(pv.Origins(fs.val()), ",")
@@ -201,6 +255,9 @@ func ruleProvAlias(c *Ctx, r *Rep) {
 				if len(base) != 1 || !strings.HasPrefix(base[0], "P(") {
 					shape += "not the configuration path parameter; "
 				}
+			}
+			if popBinds {
+				pv.binds = pv.binds[:len(pv.binds)-1]
 			}
 			r.Check(shape == "", "default-alias|"+fk, c.Pos(fs.st.Pos()), "path[LastIndex(path, \"/\")+1 : LastIndex(path, \".\")]: the file's base name in whatever directory, whatever the case of the suffix", shape)
 			// only when no alias is configured
@@ -466,8 +523,23 @@ func ruleProvContent(c *Ctx, r *Rep) {
 				// per-element structures take their values from the element being converted, not from the enclosing level
 				if via := contentVia[owner]; via != "" {
 					okVia := len(o) > 0
+					elemT := strings.TrimSuffix(strings.TrimPrefix(via, "."), "s[") // ProfessionInfos[ -> ProfessionInfo
 					for _, x := range o {
-						if strings.Contains(x, "P(") && !strings.Contains(x, via) {
+						if !strings.Contains(x, "P(") || strings.Contains(x, via) {
+							continue
+						}
+						// a per-element converter: the value comes from its parameter of the YAML element type
+						fromElem := false
+						for _, prm := range fn.Params {
+							t := prm.Type()
+							if pt, isP := t.Underlying().(*types.Pointer); isP {
+								t = pt.Elem()
+							}
+							if strings.HasSuffix(typeShort(c, t), "v1."+elemT) && strings.Contains(x, "P("+fk+"."+prm.Name()+")") {
+								fromElem = true
+							}
+						}
+						if !fromElem {
 							okVia = false
 						}
 					}
